@@ -262,6 +262,8 @@ class Kernel:
         raise HarnessError(f"strict stub miss: readlink({p!r})")
 
     def stat(self, p):
+        if isinstance(p, str) and "\x00" in p:
+            raise ValueError("embedded null byte")       # what os.stat() does with such a path
         if isinstance(p, seq.SymSeq) or not self._known_space(p) and self.exists_oracle:
             r = self.exists_oracle(p)
             if bool(r):
